@@ -180,7 +180,7 @@ func (db *Database) filterAndSortTerms(list []termWithScore, maxTerms int) []str
 	// Add enhanced terms by IDF score to fill remaining slots
 	remaining := maxTerms - len(out)
 	if remaining > 0 && len(enhancedList) > 0 {
-		sort.Slice(enhancedList, func(i, j int) bool {
+		sort.SliceStable(enhancedList, func(i, j int) bool {
 			return enhancedList[i].idf > enhancedList[j].idf
 		})
 		for i := 0; i < utils.Min(remaining, len(enhancedList)); i++ {
@@ -311,8 +311,8 @@ func (db *Database) SearchUniversal(query string, options SearchOptions) []Searc
 	// Convert to results and apply pipeline boosts
 	results := db.collectResults(scores, pq, options)
 
-	// Sort preliminarily
-	sort.Slice(results, func(i, j int) bool { return results[i].Score > results[j].Score })
+	// Sort preliminarily (stable: equal scores keep document order)
+	sort.SliceStable(results, func(i, j int) bool { return results[i].Score > results[j].Score })
 
 	// Apply all post-scoring boosts (NLP reranking, cascading, semantic)
 	results = db.applyPostScoringBoosts(results, pq, query, options)
@@ -482,7 +482,15 @@ func indexCommand(cmd *Command) (uniqueLens docLens, termFreqs map[string]fieldT
 
 func (db *Database) collectResults(scores map[int]float64, pq *nlp.ProcessedQuery, options SearchOptions) []SearchResult {
 	results := make([]SearchResult, 0, utils.Min(len(scores), options.Limit*3))
-	for docID, score := range scores {
+	// Walk the accumulator in document order: map iteration order is random, and the
+	// order in which results are collected decides how equal scores are ranked.
+	docIDs := make([]int, 0, len(scores))
+	for docID := range scores {
+		docIDs = append(docIDs, docID)
+	}
+	sort.Ints(docIDs)
+	for _, docID := range docIDs {
+		score := scores[docID]
 		cmd := &db.Commands[docID]
 
 		// Apply intent-based boost if NLP is active
@@ -528,7 +536,7 @@ func (db *Database) rerankWithNLP(results []SearchResult, query string, options 
 		}
 	}
 	// Resort after blending
-	sort.Slice(topK, func(i, j int) bool { return topK[i].Score > topK[j].Score })
+	sort.SliceStable(topK, func(i, j int) bool { return topK[i].Score > topK[j].Score })
 	return topK
 }
 
@@ -660,7 +668,7 @@ func (db *Database) applySemanticBoost(results []SearchResult, query string) []S
 	}
 
 	// Re-sort after applying semantic boost
-	sort.Slice(results, func(i, j int) bool {
+	sort.SliceStable(results, func(i, j int) bool {
 		return results[i].Score > results[j].Score
 	})
 
